@@ -348,6 +348,11 @@ def execute(case, keep_log=False):
                 extra = [x for x in got if x not in want][:3]
                 res.violation("R2-peer-interpreter", "save", "part %s: an independent MusicXML reader finds other sounding notes than the score has: missing %s, unexpected %s" % (ap["id"], [(str(a), str(b), c) for a, b, c in miss], [(str(a), str(b), c) for a, b, c in extra]), site="sounding-notes" + (":divisions-change-off-grid" if off_grid_divchange(ap) else ""))
                 break
+            gc = dec.get(ap["id"], {}).get("grace_chords", [])
+            if gc:
+                # the grace notes of the generated scores follow one another (a run); none sounds together with its neighbour
+                res.violation("R2-peer-interpreter", "save", "part %s: grace notes %s are written with <chord/>: the file says they sound together with the grace note before them, the score has them one after the other" % (ap["id"], gc[:4]), site="grace-chord")
+                break
     except Exception as e:
         res.violation("R2-peer-interpreter", "save", "independent reader failed on the written file: %s: %s" % (type(e).__name__, e), site="parse")
 
